@@ -26,7 +26,7 @@ EXPLANATION = (
     "UnboundLocalError (definite assignment) - cross-reference only."
 )
 LEVEL_RULE = "one obligation per restore pattern / run_check site / typestate use / reachable raise statement"
-FLOORS = {"R1": 2, "R2": 5, "R3": 4, "R4": 40}
+FLOORS = {"R1": 2, "R2": 5, "R3": 4, "R4": 40, "R5": 2}
 
 DOCUMENTED = {"SchemaError", "SchemaErrors", "SchemaDefinitionError", "SchemaInitError", "ParserError"}
 # raise sites outside the documented set, confirmed by reading (function short name, exception class) -> reason
@@ -412,9 +412,69 @@ def r4_raises(ctx):
     ctx.stats["raise_statements_examined"] = n
 
 
+def r5_duplicate_level_names(ctx):
+    """A MultiIndex may legally carry two levels with the same name.  `Index.to_frame()` raises ValueError on such an
+    index unless allow_duplicates=True, and several callers (nullable / unique / dtype core checks, joint uniqueness) run
+    outside the user-check fence - so every index-to-frame conversion in the pandas backends has to allow duplicates."""
+    from ..flow import FlowExpander
+    ix = ctx.ix
+    n = 0
+    for m in ix.modules.values():
+        if not m.path.startswith("pandera/backends/pandas/"):
+            continue
+        for f in m.all_functions:
+            calls = [c for c in calls_in(f.node, nested=True) if callee_last(c) == "to_frame" and isinstance(c.func, ast.Attribute)]
+            if not calls:
+                continue
+            fx = None
+            for c in calls:
+                recv = c.func.value
+                t = txt(recv)
+                indexish = t.endswith(".index") or (isinstance(recv, ast.Name) and "index" in recv.id.lower() and "case" not in recv.id.lower())
+                if not indexish and isinstance(recv, ast.Name):
+                    fx = fx or FlowExpander(f.node)
+                    try:
+                        indexish = txt(fx.expand(recv)).endswith(".index")
+                    except Exception:
+                        indexish = False
+                if not indexish:
+                    continue
+                n += 1
+                allow = kw(c, "allow_duplicates")
+                ok = isinstance(allow, ast.Constant) and allow.value is True
+                why = "allow_duplicates=True"
+                if not ok:
+                    # version / library guarded fall-backs: old pandas (no such keyword) and pyspark.pandas
+                    from ..cfg import cfg_of as _cfg_of
+                    g = f
+                    st = enclosing_stmt(c)
+                    owner = f
+                    cfg = _cfg_of(owner.node)
+                    node = cfg.node_of(st)
+                    if node is None and f.nested:
+                        for h in f.nested.values():
+                            cfg2 = _cfg_of(h.node)
+                            if cfg2.node_of(st) is not None:
+                                cfg, node = cfg2, cfg2.node_of(st)
+                    if node is not None:
+                        pc = path_condition(cfg, node.id, keep=lambda tt, nn: "pyspark" in tt or "pandas_version" in tt)
+                        if pc[0] and len(pc[1]) == 1:
+                            d = dict(zip(pc[0], next(iter(pc[1]))))
+                            if any("pyspark" in k and v for k, v in d.items()) or any("pandas_version" in k and not v for k, v in d.items()):
+                                ok, why = True, f"library/version guarded fall-back ({show_condition(pc)})"
+                ctx.ob("R5", f, f"`{txt(c)[:60]}` tolerates duplicate level names", ok,
+                       why if ok else
+                       "Index.to_frame() without allow_duplicates=True raises `ValueError: Cannot create duplicate column labels` for a MultiIndex "
+                       "whose levels share a name; the failure-case reshaping is reached from core checks outside the user-check fence, so the "
+                       "ValueError leaks from validate", f.loc(c))
+    if n == 0:
+        raise AnalysisError("no index-to-frame conversion found in the pandas backends")
+
+
 def run(ctx):
     r1_restores(ctx)
     r2_fences(ctx)
     r3_typestate(ctx)
     r4_raises(ctx)
+    r5_duplicate_level_names(ctx)
     ctx.assume("exceptions raised inside pandas/polars/numpy calls are not modelled")
